@@ -132,6 +132,13 @@ KeepSum(xs, k, desc, S) ==
            take == IF k < 0 THEN 0 ELSE IF k > Len(sorted) THEN Len(sorted) ELSE k IN
        OkNum(VInt(SumSeq(SubSeq(sorted, 1, take))), S)
 
+\* items(): one fresh two-element array per entry
+RECURSIVE PairArrays(_, _, _, _, _)
+PairArrays(S, cell, idx, k, acc) ==
+  IF k > Len(idx) THEN [S |-> S, xs |-> acc]
+  ELSE LET a == NewArr(S, <<VStr(cell.ks[idx[k]]), cell.vs[idx[k]]>>) IN
+       PairArrays(a.S, cell, idx, k + 1, Append(acc, a.v))
+Chars3(m) == CASE m = "keys" -> <<"k", "e", "y", "s">> [] m = "values" -> <<"v", "a", "l", "u", "e", "s">> [] OTHER -> <<"i", "t", "e", "m", "s">>
 CallMethod(o, m, args, S) ==
   LET n == Len(args) IN
   IF o.t = "arr" THEN
@@ -157,7 +164,16 @@ CallMethod(o, m, args, S) ==
                         ELSE Ok(xs[1], SetCell(S, o.a, [xs |-> Tail(xs)]))
       [] OTHER -> Ood(S)
   ELSE IF o.t = "dict" THEN
-    CASE m = "len" -> IF n # 0 THEN Err(S) ELSE Ok(VInt(Len(Cell(S, o.a).ks)), S)
+    LET cell == Cell(S, o.a)
+        idx == KeyOrder(cell) IN
+    CASE m = "len" -> IF n # 0 THEN Err(S) ELSE Ok(VInt(Len(cell.ks)), S)
+      \* walks in key order; an own entry or a prototype entry of that name would shadow the method: outside the domain
+      [] m \in {"keys", "values", "items"} ->
+           IF n # 0 THEN Err(S)
+           ELSE IF ~Walkable(cell) \/ Len(cell.ks) > 8 \/ DictHas(cell, ProtoKey) \/ DictHas(cell, Chars3(m)) THEN Ood(S)
+           ELSE IF m = "keys" THEN NewArr(S, [i \in 1..Len(idx) |-> VStr(cell.ks[idx[i]])])
+           ELSE IF m = "values" THEN NewArr(S, [i \in 1..Len(idx) |-> cell.vs[idx[i]]])
+           ELSE LET r == PairArrays(S, cell, idx, 1, <<>>) IN NewArr(r.S, r.xs)
       [] OTHER -> Ood(S)
   ELSE IF o.t \in {"int", "flt", "str", "null"} THEN Err(S)     \* no attributes on these types
   ELSE Ood(S)
